@@ -58,7 +58,7 @@ func genInt(t *rapid.T) IntCase {
 	n := rapid.IntRange(1, 3).Draw(t, "nadv")
 	for i := 0; i < n; i++ {
 		var b speer.Behaviour
-		switch rapid.IntRange(0, 7).Draw(t, "kind") {
+		switch rapid.IntRange(0, 9).Draw(t, "kind") {
 		case 0:
 			b.CorruptAll = true
 		case 1:
@@ -74,10 +74,10 @@ func genInt(t *rapid.T) IntCase {
 		case 6:
 			b.ChokeAfter, b.ChokeMs = rapid.IntRange(1, 4).Draw(t, "ca"), rapid.SampledFrom([]int{1, 30}).Draw(t, "cms")
 			b.CorruptBlocks = []int{rapid.IntRange(0, 8).Draw(t, "cb")}
+		case 7, 8:
+			b.CorruptAll, b.CloseOnPieceDone = true, true
 		default:
-			if rapid.Bool().Draw(t, "closeOnPiece") {
-				b.CorruptAll, b.CloseOnPieceDone = true, true
-			} else {
+			{
 				b.DisconnectAfter = rapid.IntRange(1, 5).Draw(t, "da")
 				b.CorruptBlocks = []int{0}
 			}
@@ -94,6 +94,15 @@ func genInt(t *rapid.T) IntCase {
 		c.FailWrites = rapid.SliceOfN(rapid.IntRange(0, 12), 1, 2).Draw(t, "failWrites")
 	}
 	c.ReqOut = rapid.SampledFrom([]int{1, 4, 250}).Draw(t, "reqout")
+	if rapid.IntRange(0, 4).Draw(t, "banScenario") == 0 {
+		// the shape in which a hash failure is attributable: one adversary corrupting whole pieces and hanging up, nothing else corrupting
+		c.Adversaries = []speer.Behaviour{{CorruptAll: true, CloseOnPieceDone: true}}
+		c.AdvDial = []bool{rapid.Bool().Draw(t, "banDial")}
+		if c.WebSeed == 2 {
+			c.WebSeed = 0
+		}
+		c.Cmds, c.FailWrites = nil, nil
+	}
 	c.EndgameMax = rapid.SampledFrom([]int{1, 2, 20}).Draw(t, "eg")
 	return c
 }
@@ -291,6 +300,7 @@ func runInt(c IntCase) core.Result {
 	var advs []*advState
 	// listeners (client dials them)
 	var addrs []string
+	var probeFn func(i int, st *advState, s *speer.Server)
 	listen := func(k int, b speer.Behaviour, fast bool, st *advState) {
 		ln, err := net.Listen("tcp4", sess.IP(k)+":0")
 		if err != nil {
@@ -316,15 +326,57 @@ func runInt(c IntCase) core.Result {
 						st.srv = append(st.srv, s)
 					}
 					pmu.Unlock()
+					if st != nil && b.CloseOnPieceDone && probeFn != nil {
+						go probeFn(k-10, st, s)
+					}
 				}()
 			}
 		}()
 		t := ln
 		_ = t
 	}
-	for i := 0; i < c.Honest; i++ {
-		listen(1+i, speer.Behaviour{}, i%2 == 0, nil)
+	slowHonest := speer.Behaviour{}
+	for _, b := range c.Adversaries {
+		if b.CloseOnPieceDone {
+			slowHonest.DelayPerBlockMs = 40 // keep the download going long enough for the reconnect probe
+		}
 	}
+	for i := 0; i < c.Honest; i++ {
+		listen(1+i, slowHonest, i%2 == 0, nil)
+	}
+	probeC := make(chan string, 8)
+	probe := func(i int, st *advState, s *speer.Server) {
+		defer func() { recover() }()
+		// the adversary supplied a complete corrupted piece and hung up at once; once the client has judged that piece
+		// (piece writes are serialised: allow for the generated write delays), the same address must not be accepted again
+		<-s.Done()
+		time.Sleep(450 * time.Millisecond)
+		// Sound only when the client itself has seen a hash failure and this adversary is the only source of corrupt
+		// data: a disconnect may be handled before the last blocks (they travel on different channels), in which
+		// case the piece is never assembled and nobody is to blame.
+		corrupting := 0
+		for _, b := range c.Adversaries {
+			if b.CorruptAll || len(b.CorruptBlocks) > 0 {
+				corrupting++
+			}
+		}
+		if c.WebSeed == 2 {
+			corrupting++
+		}
+		if st0 := tor.Stats(); st0.Status != torrent.Downloading || st0.Bytes.Wasted == 0 || corrupting != 1 {
+			return
+		}
+		p, err := speer.Dial(st.ip, fmt.Sprintf("%s:%d", sess.IP(0), tor.Port()), mkOpts(10+i, false), 700*time.Millisecond)
+		if err != nil {
+			probeC <- ""
+			return
+		}
+		defer p.Close()
+		if tor.Stats().Status == torrent.Downloading {
+			probeC <- fmt.Sprintf("adversary %d supplied a complete piece of corrupted data and closed its connection; the client counted the piece as wasted, yet 450 ms later a new connection from the same address %s was accepted while the download was still running (the peer was not banned)", i, st.ip)
+		}
+	}
+	probeFn = probe
 	for i, b := range c.Adversaries {
 		st := &advState{b: b, ip: sess.IP(10 + i), dialing: c.AdvDial[i]}
 		advs = append(advs, st)
@@ -363,6 +415,9 @@ func runInt(c IntCase) core.Result {
 				pmu.Lock()
 				st.srv = append(st.srv, s)
 				pmu.Unlock()
+				if st.b.CloseOnPieceDone {
+					go probe(i, st, s)
+				}
 			}
 		}
 	}
@@ -440,6 +495,17 @@ func runInt(c IntCase) core.Result {
 		return core.Failf("%s", v)
 	}
 	lab := map[string]bool{}
+	for drained := false; !drained; {
+		select {
+		case msg := <-probeC:
+			lab["reconnect-probe"] = true
+			if msg != "" {
+				return core.Failf("%s", msg)
+			}
+		default:
+			drained = true
+		}
+	}
 	if completed {
 		lab["completed"] = true
 		nDone, done := j.complete()
